@@ -282,7 +282,8 @@ class Seam:
                 REAL["utime"](fd, (t, t))
         finally:
             self.inside = False
-        self.fds[fd] = [rel, proc]
+        self._serial = getattr(self, "_serial", 0) + 1
+        self.fds[fd] = [rel, proc, self._serial]
         self.log(proc, "%s %s" % (what, self.norm(rel)))
         if self.stats is not None:
             self.stats["seam-op:open"] += 1
@@ -292,7 +293,7 @@ class Seam:
         ent = self.fds.get(fd)
         if ent is None or self.current is None or self.inside:
             return REAL["write"](fd, data)
-        rel, proc = ent
+        rel, proc = ent[0], ent[1]
         data = bytes(data)
         total = len(data)
         done = 0
@@ -322,15 +323,17 @@ class Seam:
         ent = self.fds.get(fd)
         if ent is None or self.current is None or self.inside:
             return REAL["read"](fd, n)
-        rel, proc = ent
+        rel, proc = ent[0], ent[1]
         return self._do(proc, "read", rel, lambda: REAL["read"](fd, n), info="<=%dB" % n)
 
     def _os_close(self, fd):
+        if self.current is not None and getattr(self.current, "dead", False) and not self.inside:
+            raise SimCrash()           # a dead process closes nothing: the kernel did it, the number may be reused
         ent = self.fds.get(fd)
         if ent is None or self.current is None or self.inside:
             self.fds.pop(fd, None)
             return REAL["close"](fd)
-        rel, proc = ent
+        rel, proc = ent[0], ent[1]
         try:
             return self._do(proc, "close", rel, lambda: REAL["close"](fd))
         finally:
@@ -342,14 +345,14 @@ class Seam:
         ent = self.fds.get(fd)
         if ent is None or self.current is None or self.inside:
             return REAL["fsync"](fd)
-        rel, proc = ent
+        rel, proc = ent[0], ent[1]
         return self._do(proc, "fsync", rel, lambda: REAL["fsync"](fd))
 
     def _os_ftruncate(self, fd, length):
         ent = self.fds.get(fd)
         if ent is None or self.current is None or self.inside:
             return REAL["ftruncate"](fd, length)
-        rel, proc = ent
+        rel, proc = ent[0], ent[1]
         return self._do(proc, "ftruncate", rel, lambda: REAL["ftruncate"](fd, length), mut=True, stamp_fd=fd, info="to %d" % length)
 
     def read_whole(self, path):
@@ -376,7 +379,7 @@ class Seam:
         ent = self.fds.get(fd)
         if ent is None or self.current is None or self.inside:
             return None
-        rel, proc = ent
+        rel, proc = ent[0], ent[1]
         spins = 0
         while True:
             spins += 1
@@ -479,6 +482,8 @@ class ProxyFile:
         self._closefd = closefd
         self.closed = False
         self._rbuf = None
+        ent = seam.fds.get(fd)
+        self._serial = ent[2] if ent is not None and len(ent) > 2 else None
 
     def fileno(self):
         return self._fd
@@ -558,6 +563,9 @@ class ProxyFile:
         if not self.closed:
             self.closed = True
             if self._closefd:
+                ent = self._seam.fds.get(self._fd)
+                if ent is not None and len(ent) > 2 and ent[2] != self._serial:
+                    return             # the number belongs to a later open by now
                 os.close(self._fd)
 
     def __enter__(self):
@@ -572,8 +580,12 @@ class ProxyFile:
         if not self.closed and self._closefd:
             self.closed = True
             try:
-                self._seam.fds.pop(self._fd, None)
-                REAL["close"](self._fd)
+                # only if the descriptor number still belongs to this very open: after the owner's death the seam has
+                # closed it already and the number may have been handed out again to somebody else
+                ent = self._seam.fds.get(self._fd)
+                if ent is not None and len(ent) > 2 and ent[2] == self._serial:
+                    self._seam.fds.pop(self._fd, None)
+                    REAL["close"](self._fd)
             except Exception:
                 pass
 
